@@ -67,7 +67,9 @@ impl Resolver<'_> {
             return cols;
         };
 
-        for (ident, decl) in this.as_decls().into_iter().sorted_by_key(|x| x.1.order) {
+        // by declaration order, then by name: the decls come out of a HashMap
+        let decls = this.as_decls().into_iter();
+        for (ident, decl) in decls.sorted_by(|a, b| (a.1.order, &a.0).cmp(&(b.1.order, &b.0))) {
             if let DeclKind::Column(_) = decl.kind {
                 cols.push(ident);
             }
